@@ -33,6 +33,33 @@ pub fn generate(g: &mut Gen) {
         g.push(format!("act.fwd {} {}", a, qt(&d)), Tol::Exact, "unsupported-rank", true);
         g.push(format!("act.bwd {} {}", a, qt(&d)), Tol::Exact, "unsupported-rank", true);
     }
+    // tensors that are zero in EVERY element (sigmoid 0 = 1/2, soft-max of zeros = 1/n), both signs of zero, every rank
+    for a in ACTS.iter() {
+        let tol = if ["softmax", "sigmoid", "tanh"].contains(a) { Tol::Tight } else { Tol::Exact };
+        for z in [0.0f32, -0.0] {
+            for n in [1usize, 4] {
+                let t1 = Tensor::single(vec![z; n]);
+                let t3 = Tensor::triple(vec![vec![vec![z; n]; 2]]);
+                for t in [&t1, &t3] {
+                    g.push(format!("act.fwd {} {}", a, qt(t)), tol, &format!("{}/fwd/all-zero", a), true);
+                    g.push(format!("act.bwd {} {}", a, qt(t)), tol, &format!("{}/bwd/all-zero", a), true);
+                }
+            }
+        }
+    }
+    // consecutive calls on inputs that differ by a few 1e-6 (across the kink): every call answers for its own input
+    for a in ACTS.iter() {
+        let tol = if ["softmax", "sigmoid", "tanh"].contains(a) { Tol::Tight } else { Tol::Exact };
+        let seq: [[f32; 3]; 5] = [[0.0, 0.5, -0.25], [3e-6, 0.5, -0.25], [-2e-6, 0.500001, -0.25], [4e-6, 0.5, -0.250002], [0.0, 0.5, -0.25]];
+        for dir in ["bwd", "fwd"] {
+            for v in seq.iter() {
+                g.push(format!("act.{} {} {}", dir, a, qt(&Tensor::single(v.to_vec()))), tol, &format!("{}/{}/near-equal-sequence/1d", a, dir), true);
+            }
+            for v in seq.iter() {
+                g.push(format!("act.{} {} {}", dir, a, qt(&Tensor::triple(vec![vec![v.to_vec()]]))), tol, &format!("{}/{}/near-equal-sequence/3d", a, dir), true);
+            }
+        }
+    }
     // soft-max: huge, tiny, equal and shifted vectors
     let cases: Vec<Vec<f32>> = vec![
         vec![3e38, 3e38, -3e38],
